@@ -24,7 +24,12 @@ def replay(g, o, assigns, path):
     """Skeleton counterexamples are paths, not inputs: the replay searches the structured family of real inputs/histories of
     replay_src/solver_replay.cpp (mode 'history') on the REAL solvers."""
     from vlib import replay as RP
-    return RP.run_native(PROP, RP.src("solver_replay.cpp"), args=['history'], timeout=900)
+    r = RP.run_native(PROP, RP.src("solver_replay.cpp"), args=['history'], timeout=900)
+    if not r.get("reproduced"):
+        r2 = RP.run_native(PROP, RP.src("solver_replay.cpp"), args=['all'], timeout=900, name="replay2")
+        if r2.get("reproduced"):
+            return r2
+    return r
 
 
 MANIFEST = {
